@@ -1412,6 +1412,10 @@ def tier_c(run, thorough):
                 if noise:
                     case['noise'] = noise
                 bd.check(orc_agree, case, 'units-%g' % sc, function='calc_rdm_unbalanced')
+                if noise and form == 'list':
+                    # the precision in the matching units (entries of size 1 / scale**2, full matrix)
+                    bd.check(orc_agree, dict(case, noise_scale='inverse'), 'units-%g,precision-in-matching-units' % sc,
+                             function='calc_rdm_unbalanced')
     for dtype, values in (('float32', 'f32'), ('uint8', 'int'), ('int16', 'int-large'), ('uint16', 'int-large')):
         for order in ('C', 'F', 'strided'):
             for method, noise in (('euclidean', None), ('mahalanobis', 'spd'), ('poisson', None), ('correlation', None)):
